@@ -103,6 +103,20 @@ func resolveDispatch(c *chk.Ctx) *dispatchModel {
 		if sig.Results().Len() == 1 && isJmessagesType(c, sig.Results().At(0).Type()) {
 			d.responses = f
 		}
+		// or the message list together with bookkeeping for the delivery, as one small struct
+		if sig.Results().Len() == 1 {
+			if st, ok := sig.Results().At(0).Type().Underlying().(*types.Struct); ok {
+				nMsgs := 0
+				for i := 0; i < st.NumFields(); i++ {
+					if isJmessagesType(c, st.Field(i).Type()) {
+						nMsgs++
+					}
+				}
+				if nMsgs == 1 {
+					d.responses = f
+				}
+			}
+		}
 		if sig.Results().Len() == 2 && sig.Results().At(0).Type().String() == "int" && sig.Results().At(1).Type().String() == "int" {
 			d.numToDo = f
 		}
@@ -121,8 +135,9 @@ func resolveDispatch(c *chk.Ctx) *dispatchModel {
 				if g == nil || !c.P.InRepo[g] || g == d.responses {
 					return
 				}
+				rt := d.responses.Signature.Results().At(0).Type()
 				for _, a := range ci.Common().Args {
-					if !isJmessagesType(c, a.Type()) {
+					if !isJmessagesType(c, a.Type()) && !types.Identical(a.Type(), rt) {
 						continue
 					}
 					for _, src := range c.P.SourcesStop(a, func(v ssa.Value) bool {
@@ -341,6 +356,31 @@ func ruleInvokeSites(c *chk.Ctx, d *dispatchModel) {
 					}
 				}
 			}
+		}
+		if call != nil && ok && taskArg != nil && d.invoke.Signature.Results().Len() == 0 {
+			// the invoke function is given the task and records the outcome itself: every
+			// store into a task's val/err there goes to that very parameter
+			c.P.ExtInstrs(d.invoke, func(ins ssa.Instruction) {
+				st, isSt := ins.(*ssa.Store)
+				if !isSt {
+					return
+				}
+				fa, isFA := st.Addr.(*ssa.FieldAddr)
+				if !isFA || ir.FieldOwner(fa) != c.M.Task {
+					return
+				}
+				fv := ir.FieldVar(fa)
+				if fv != c.M.TVal && fv != c.M.TErr {
+					return
+				}
+				base := c.P.Canon(fa.X)
+				prm, isParam := base.(*ssa.Parameter)
+				if base == task || (isParam && prm.Parent() == d.invoke) {
+					stored[fv] = true
+				} else {
+					ok = false
+				}
+			})
 		}
 		ok = ok && stored[c.M.TVal] && stored[c.M.TErr]
 		c.Check(ok, "PAIR.invoke", f, "own slot", s.Pos(), "context, handler and request are read from, and result and error written to, the same task value",
@@ -843,6 +883,90 @@ func describeSkipCond(c *chk.Ctx, cd ir.Cond) string {
 	return "other(" + cd.V.String() + ")"
 }
 
+// invOutcome is one way the invoke function hands back a handler's outcome:
+// a (result bytes, error) pair returned to the caller that stores it into the
+// task, or — when the invoke function is given the task — the pair it stores
+// into the task's val/err itself. conds are the branch outcomes known there.
+type invOutcome struct {
+	val, err ssa.Value
+	at       ssa.Instruction
+	conds    []ir.Cond
+}
+
+func invokeOutcomes(c *chk.Ctx, d *dispatchModel) []invOutcome {
+	f := d.invoke
+	var raw []invOutcome
+	if f.Signature.Results().Len() == 2 {
+		// (a `return h(...)` of a private helper stands for the helper's returns)
+		for _, r := range effectiveReturns(c, f, 0) {
+			if len(r.Results) == 2 {
+				raw = append(raw, invOutcome{val: ir.ReturnResult(r, 0), err: ir.ReturnResult(r, 1), at: r})
+			}
+		}
+	} else {
+		// stores into val/err of a task, paired per block
+		type pair struct {
+			val, err *ssa.Store
+		}
+		byBlock := map[*ssa.BasicBlock]*pair{}
+		var order []*ssa.BasicBlock
+		c.P.ExtInstrs(f, func(ins ssa.Instruction) {
+			st, ok := ins.(*ssa.Store)
+			if !ok {
+				return
+			}
+			fa, ok := st.Addr.(*ssa.FieldAddr)
+			if !ok || ir.FieldOwner(fa) != c.M.Task {
+				return
+			}
+			fv := ir.FieldVar(fa)
+			if fv != c.M.TVal && fv != c.M.TErr {
+				return
+			}
+			pr := byBlock[st.Block()]
+			if pr == nil {
+				pr = &pair{}
+				byBlock[st.Block()] = pr
+				order = append(order, st.Block())
+			}
+			if fv == c.M.TVal {
+				pr.val = st
+			} else {
+				pr.err = st
+			}
+		})
+		for _, b := range order {
+			pr := byBlock[b]
+			o := invOutcome{}
+			if pr.val != nil {
+				o.val, o.at = pr.val.Val, pr.val
+			}
+			if pr.err != nil {
+				o.err, o.at = pr.err.Val, pr.err
+			}
+			raw = append(raw, o)
+		}
+	}
+	// an error chosen on the way into the block (a phi) is one outcome per way
+	var out []invOutcome
+	for _, o := range raw {
+		blk := o.at.Block()
+		if phi, ok := o.err.(*ssa.Phi); ok && phi.Block() == blk {
+			for i, e := range phi.Edges {
+				v := o.val
+				if vp, ok := v.(*ssa.Phi); ok && vp.Block() == blk {
+					v = vp.Edges[i]
+				}
+				out = append(out, invOutcome{val: v, err: e, at: o.at, conds: ir.EdgeConds(blk.Preds[i], blk)})
+			}
+			continue
+		}
+		o.conds = ir.CondsAt(blk)
+		out = append(out, o)
+	}
+	return out
+}
+
 // C01-D7: a notification handler's error never becomes a response.
 func ruleNotificationErrorsDropped(c *chk.Ctx, d *dispatchModel) {
 	f := d.invoke
@@ -851,11 +975,11 @@ func ruleNotificationErrorsDropped(c *chk.Ctx, d *dispatchModel) {
 		return
 	}
 	n := 0
-	for _, r := range ir.Returns(f) {
-		if len(r.Results) != 2 {
+	for _, r := range invokeOutcomes(c, d) {
+		if r.err == nil {
 			continue
 		}
-		ev := ir.NormCell(ir.ReturnResult(r, 1))
+		ev := ir.NormCell(r.err)
 		fromHandler := false
 		for _, src := range c.P.SourcesStop(ev, func(x ssa.Value) bool { return ir.IsExtractOf(x, hcall, 1) }) {
 			if ir.IsExtractOf(src, hcall, 1) {
@@ -867,14 +991,14 @@ func ruleNotificationErrorsDropped(c *chk.Ctx, d *dispatchModel) {
 		}
 		n++
 		notNote := false
-		for _, cd := range ir.CondsAt(r.Block()) {
+		for _, cd := range r.conds {
 			if call, ok := cd.V.(*ssa.Call); ok && !cd.Truth {
 				if g := call.Call.StaticCallee(); g != nil && isRequestNotificationPred(c, g) {
 					notNote = true
 				}
 			}
 		}
-		c.Check(notNote, "PAIR.noteerr", f, "handler error returned", r.Pos(), "the handler's error is returned only on the ¬IsNotification edge",
+		c.Check(notNote, "PAIR.noteerr", f, "handler error returned", r.at.Pos(), "the handler's error is returned only on the ¬IsNotification edge",
 			"the handler's error is returned also for notifications: a notification whose handler fails with a ParseError/InvalidRequest code would be answered")
 	}
 	if n == 0 {
@@ -1198,24 +1322,46 @@ func ruleSemSize(c *chk.Ctx) {
 	type sizeWay struct {
 		v     ssa.Value
 		conds []ir.Cond
+		same  map[ssa.Value]bool // variables (phis) that hold v on this way
 	}
 	var ways []sizeWay
-	for _, r := range ir.Returns(g) {
-		v := ir.ReturnResult(r, 0)
+	var expand func(v ssa.Value, conds []ir.Cond, same map[ssa.Value]bool, depth int)
+	expand = func(v ssa.Value, conds []ir.Cond, same map[ssa.Value]bool, depth int) {
 		if cv, ok := v.(*ssa.Convert); ok {
 			v = cv.X
 		}
-		if phi, isPhi := v.(*ssa.Phi); isPhi {
+		if phi, isPhi := v.(*ssa.Phi); isPhi && depth < 4 {
 			for i, e := range phi.Edges {
 				pred := phi.Block().Preds[i]
-				if cv, ok := e.(*ssa.Convert); ok {
-					e = cv.X
+				s2 := map[ssa.Value]bool{phi: true}
+				for k := range same {
+					s2[k] = true
 				}
-				ways = append(ways, sizeWay{e, append(append([]ir.Cond{}, ir.CondsAt(pred)...), ir.EdgeConds(pred, phi.Block())...)})
+				cs := append(append(append([]ir.Cond{}, conds...), ir.CondsAt(pred)...), ir.EdgeConds(pred, phi.Block())...)
+				expand(e, cs, s2, depth+1)
 			}
-			continue
+			return
 		}
-		ways = append(ways, sizeWay{v, ir.CondsAt(r.Block())})
+		// a constant that the outcomes on this way rule out (the zero of an unset variable
+		// under `n >= 1`) is not a way
+		if k, isK := ir.ConstInt(v); isK {
+			for _, cd := range conds {
+				x, y, op, isRel := ir.Rel(cd)
+				if !isRel || !same[x] {
+					continue
+				}
+				if b, isB := ir.ConstInt(y); isB {
+					holds := map[token.Token]bool{token.LSS: k < b, token.LEQ: k <= b, token.GTR: k > b, token.GEQ: k >= b, token.EQL: k == b, token.NEQ: k != b}[op]
+					if !holds {
+						return
+					}
+				}
+			}
+		}
+		ways = append(ways, sizeWay{v, conds, same})
+	}
+	for _, r := range ir.Returns(g) {
+		expand(ir.ReturnResult(r, 0), ir.CondsAt(r.Block()), nil, 0)
 	}
 	for _, w := range ways {
 		v := w.v
@@ -1247,13 +1393,15 @@ func ruleSemSize(c *chk.Ctx) {
 						if !isRel {
 							continue
 						}
-						lu, ok := x.(*ssa.UnOp)
-						if !ok {
-							continue
-						}
-						lfa, ok := lu.X.(*ssa.FieldAddr)
-						if !ok || ir.FieldVar(lfa) != fv {
-							continue
+						if !w.same[x] {
+							lu, ok := x.(*ssa.UnOp)
+							if !ok {
+								continue
+							}
+							lfa, ok := lu.X.(*ssa.FieldAddr)
+							if !ok || ir.FieldVar(lfa) != fv {
+								continue
+							}
 						}
 						k, isC := ir.ConstInt(y)
 						if !isC {
@@ -1412,7 +1560,13 @@ func ruleBarrier(c *chk.Ctx, d *dispatchModel) {
 			conds = c.P.CondsWithin(mine.dn, f)
 		}
 		for _, cd := range conds {
-			call, ok := cd.V.(*ssa.Call)
+			// (the verdict may have been taken before the call and handed to the goroutine as a
+			// parameter: whether a request is a notification never changes)
+			cv := cd.V
+			if _, isCall := cv.(*ssa.Call); !isCall {
+				cv = c.P.Canon(ir.NormCell(cv))
+			}
+			call, ok := cv.(*ssa.Call)
 			if !ok || !cd.Truth {
 				continue
 			}
@@ -1433,11 +1587,7 @@ func ruleBarrier(c *chk.Ctx, d *dispatchModel) {
 			}
 			t, fv, ok := taskFieldLoad(c, subject)
 			t0 := invokeSiteTask(c, s)
-			after := ir.InstrDominates(s.(*ssa.Call), call)
-			if call.Parent() != f {
-				after = ir.InstrDominates(s.(*ssa.Call), mine.at)
-			}
-			if ok && fv == c.M.THreq && t0 != nil && t == t0 && after {
+			if ok && fv == c.M.THreq && t0 != nil && t == t0 {
 				okGov = true
 			}
 		}
